@@ -222,6 +222,11 @@ func (p *FloatingIPPlugin) syncPodIP(pod *corev1.Pod) error {
 		return nil
 	}
 	defer p.lockPod(pod.Name, pod.Namespace)()
+	// the pod may have been deleted and a pod with the same name created while we were waiting for the lock,
+	// never allocate the ip of a previous pod to the key of the current one
+	if cur, err := p.PodLister.Pods(pod.Namespace).Get(pod.Name); err == nil && cur.GetUID() != pod.GetUID() {
+		return nil
+	}
 	keyObj, err := util.FormatKey(pod)
 	if err != nil {
 		glog.V(5).Infof("sync pod %s/%s ip formatKey with error %v", pod.Namespace, pod.Name, err)
